@@ -92,10 +92,10 @@ func init() {
 		full := len(args) > 0 && args[0] == "thorough"
 		maxIn, maxTok := tokenizer.MaxInputSize, tokenizer.MaxTokens
 		type lcase struct {
-			Name   string
-			Input  func() []byte
-			Entry  string // tokenize | tokenizectx | parse | validate | parsectx
-			Want   string // "" = must not be rejected with a limit code; else the limit code
+			Name  string
+			Input func() []byte
+			Entry string // tokenize | tokenizectx | parse | validate | parsectx
+			Want  string // "" = must not be rejected with a limit code; else the limit code
 		}
 		pad := func(n int, tail string) []byte {
 			// "SELECT 1" + whitespace (newline every 64 bytes) up to n bytes, ending with tail
@@ -137,6 +137,29 @@ func init() {
 			cases = append(cases,
 				lcase{"size=max " + e, func() []byte { return pad(maxIn, "") }, e, ""},
 				lcase{"size=max+1 " + e, func() []byte { return pad(maxIn+1, "") }, e, "E1006"})
+		}
+		// the limit is on the bytes that were passed in: an entry point that trims or otherwise pre-processes its input
+		// must still reject an over-long one whose excess is leading or trailing white space (and accept one at the limit)
+		lead := func(n int) []byte {
+			b := make([]byte, 0, n)
+			for len(b) < n-len("SELECT 1") {
+				if len(b)%64 == 63 {
+					b = append(b, '\n')
+				} else {
+					b = append(b, ' ')
+				}
+			}
+			return append(b, "SELECT 1"...)
+		}
+		for _, e := range []string{"pvalidate", "pvalidatebytes", "parsebytes", "validate"} {
+			e := e
+			if !full && (e == "parsebytes" || e == "validate") {
+				continue
+			}
+			cases = append(cases,
+				lcase{"size=max+1 trailing-blanks " + e, func() []byte { return pad(maxIn+1, "") }, e, "E1006"},
+				lcase{"size=max+1 leading-blanks " + e, func() []byte { return lead(maxIn + 1) }, e, "E1006"},
+				lcase{"size=max leading-blanks " + e, func() []byte { return lead(maxIn) }, e, ""})
 		}
 		// the size limit counts BYTES: filler of multi-byte characters (inside a comment, so the text stays lexically
 		// harmless), invalid UTF-8 and NUL bytes just over / exactly at the limit
@@ -182,14 +205,14 @@ func init() {
 				lcase{"tokens=max+1 parsectx", func() []byte { return toks(maxTok+1, "\n") }, "parsectx", "E1007"})
 		}
 		type lres struct {
-			Name   string  `json:"name"`
-			Bytes  int     `json:"bytes"`
-			Err    errInfo `json:"err"`
-			NTok   int     `json:"ntokens"`
-			Want   string  `json:"want"`
-			OK     bool    `json:"ok"`
-			Panic  string  `json:"panic,omitempty"`
-			Ms     int64   `json:"ms"`
+			Name  string  `json:"name"`
+			Bytes int     `json:"bytes"`
+			Err   errInfo `json:"err"`
+			NTok  int     `json:"ntokens"`
+			Want  string  `json:"want"`
+			OK    bool    `json:"ok"`
+			Panic string  `json:"panic,omitempty"`
+			Ms    int64   `json:"ms"`
 		}
 		results := make([]lres, len(cases))
 		var wg sync.WaitGroup
@@ -218,6 +241,12 @@ func init() {
 						_, err = gosqlx.Parse(string(in))
 					case "validate":
 						err = gosqlx.Validate(string(in))
+					case "pvalidate":
+						err = parser.Validate(string(in))
+					case "pvalidatebytes":
+						err = parser.ValidateBytes(in)
+					case "parsebytes":
+						_, err = parser.ParseBytes(in)
 					case "parsectx":
 						_, err = gosqlx.ParseWithContext(context.Background(), string(in))
 					}
